@@ -152,8 +152,8 @@ func init() {
 			p.storeCalls(fns["memtableQueue.rotateNoLock"], "freeze", "newMemtable", "append"))
 		def("memtableQueue.remove: the guard that keeps the last element", "queueRemoveConds", p.IfConds(fns["memtableQueue.remove"], "len(mq.queue)"))
 		def("segmentManager.remove: swap with the last element, truncate", "segRemoveAssigns", p.storeAssigns(fns["segmentManager.remove"], "sm.segments"))
-		def("segmentMetadata.getIndex: order of os.Open, the deserialisation, the caching", "getIndexOps",
-			append(p.storeCalls(fns["segmentMetadata.getIndex"], "os.Open", "ReadFrom", "NewHybridSearchIndex"), p.storeAssigns(fns["segmentMetadata.getIndex"], "s.cachedIndex")...))
+		def("segmentMetadata.getIndex: order of os.Open, the deserialisation, the drain that verifies the last gzip trailer, the caching", "getIndexOps",
+			append(p.storeCalls(fns["segmentMetadata.getIndex"], "os.Open", "ReadFrom", "NewHybridSearchIndex", "io.Copy"), p.storeAssigns(fns["segmentMetadata.getIndex"], "s.cachedIndex")...))
 		return b, nil
 	}})
 }
